@@ -62,6 +62,29 @@ CLAIMED = {
             "One delivery path, each selected appender written once per event by the designated helper, Block policy performs the blocking send. Routing as a function of configuration and the shutdown window are not decided.", "§4 C19"),
 }
 
+# clauses added while working through the seeded changes and idea probes (DESIGN §9.6/§9.7); appended to the claim text of each check
+ADDENDA = {
+    "C01": "Also: the caller's `sent` counter advances by the same `valid` next to every resolve_run.",
+    "C03": "Also: occupancy is compared strictly against capacity at all 22 comparison sites (`occ < cap` / `occ >= cap`), mpmc admission uses the logical is_full(capacity), "
+           "and channel state machines never use compare_exchange_weak outside the hybrid locks' fast paths.",
+    "C04": "Also: every send-side commit (35 sites) lies behind an observation of receiver liveness on every call chain; the oneshot receive path decides Disconnected only on a state "
+           "observation made after its sender_count read; handle counters are changed by RMW only and the last-handle decision is the RMW's result; in lock-based cores the "
+           "emptiness observation and the Disconnected decision share one critical section.",
+    "C05": "Also: at the 20 fence-protocol park sites something observes the other side's liveness between registration and park.",
+    "C06": "Also: behind each of the 16 lock-free waker registrations every path to Pending re-reads the channel state and a liveness look lies in between.",
+    "C09": "Also: the Drop of every payload-owning storage type passes its drain on every path (only the cell's own occupancy marker or needs_drop may skip it).",
+    "C10": "Also: the WOKEN sample that decides wake forwarding is taken after the unlink (helpers followed), the lock word is never written by a plain store, all acquisition paths of "
+           "one lock mode test the same mask, and ListGuard::rearm installs the caller's handle on every path.",
+    "C11": "Also: map-typed fields whose values carry V are keyed by K; a Vacant entry is built only where the key is absent (as long as VacantEntry::insert ignores the replaced entry).",
+    "C12": "Also: clock-vs-deadline comparisons are `now >= deadline` / `now < deadline`; every is_expired call gets the configured time_to_idle; nothing rewrites expires_at, "
+           "last_accessed is written only by update_last_accessed, both read the precise clock; expiry test and removal share one write-lock critical section; a remaining "
+           "lifetime is never passed where an absolute deadline is expected.",
+    "C13": "Also: every fetch_add on current_cost adds the cost the entry was built with, and loop-published totals are reset on every iteration.",
+    "C15": "Also: all six indexings of the in-flight load table compute the stripe by the same operations on the key's hash.",
+    "C16": "Also: every JanitorContext receives the cache's notification sender.",
+    "C17": "Also: every batch acceptance in IterStream::poll_next follows a cursor store, and iteration/snapshot code takes shard locks with blocking calls only.",
+}
+
 NOT_APPLICABLE = {
     "C14": "Quantifies over arbitrary admit/access/remove/evict call sequences against per-policy bookkeeping (segment sizes, ghost lists, sketch counters): runtime values, no common structural clause across eight deliberately different algorithms (DESIGN §5).",
     "C20": "Escaping round-trips for arbitrary Unicode, padding/truncation and roll/retention arithmetic are functions of input values and clock steps; the only structural fact (serde_json + one newline) constrains no realistic change (DESIGN §5).",
@@ -77,6 +100,8 @@ def main():
         pid = p["id"]
         if pid in CLAIMED:
             tech, text, ref = CLAIMED[pid]
+            if pid in ADDENDA:
+                text = text + " " + ADDENDA[pid]
             checks.append({
                 "property_id": pid,
                 "quick_cmd": f"./check {pid} --tier quick",
